@@ -7,5 +7,10 @@ CONSTANTS
   Inits = {"empty", "seeded"}
   MaxLen = 30
   Mode = "sim"
+  DeepLeafTags = {"T"}
+  DeepStepTags = {"S"}
+  DeepSelDepth = 1
+  DeepActNames = {"Remove"}
+  DeepInits = {"empty"}
 SPECIFICATION GSpec
 CHECK_DEADLOCK FALSE
